@@ -52,6 +52,7 @@ type World struct {
 	Issuer     string
 	JWKSHits   atomic.Int64
 	JWKSDown   atomic.Bool
+	ForceVariant int        // >= 0: the variant of the next prepared call (fixed scenarios); -1: random
 	ForceToken int          // >= 0: the token shape the next key-set verification uses (fixed scenarios); -1: random
 	plain      *http.Client // harness-owned client that never follows redirects
 	nextID     int
@@ -85,7 +86,7 @@ func opConfig() *op.Config {
 // NewWorld starts the provider the client-side instances talk to. It is built with default endpoints only.
 func NewWorld() *World {
 	slog.SetDefault(Discard) // providers built without WithLogger log through the process default
-	w := &World{ForceToken: -1}
+	w := &World{ForceToken: -1, ForceVariant: -1}
 	st, storage := newStore()
 	w.Store = st
 	p, err := op.NewProvider(opConfig(), storage, op.IssuerFromHost(""), op.WithAllowInsecure(), op.WithLogger(Discard))
@@ -242,6 +243,9 @@ type Instance struct {
 	Supplied []Supplied
 	Err      error
 	World    bool // the provider of the world (reached over real HTTP)
+	mu       sync.Mutex
+	legacy   http.Handler // the second router in front of Prov (c20refused.go)
+	rpH      *rpHandlers  // the RP's handlers, made once per instance (c20refused.go)
 }
 
 // WorldInstance describes the world's own provider as an instance
@@ -681,8 +685,10 @@ func (w *World) Behave(in *Instance) map[string]string {
 		q := url.Values{"client_id": {ClientID}, "redirect_uri": {RedirectURI}, "response_type": {"code"}, "scope": {"openid"}, "state": {"s"}}
 		out["authorize"] = do(httptest.NewRequest(http.MethodGet, p.AuthorizationEndpoint().Relative()+"?"+q.Encode(), nil))
 		out["keys"] = do(httptest.NewRequest(http.MethodGet, p.KeysEndpoint().Relative(), nil))
+		in.refusedProbes(out) // refused authorization requests on both routers: no state of another request may appear
 	case in.RP != nil:
 		out["authurl"] = rp.AuthURL("state", in.RP)
+		out["login"] = in.Login() // through the instance's one AuthURLHandler (code challenge bound to its own cookie)
 	case in.RS != nil:
 		out["endpoints"] = in.RS.IntrospectionURL() + " " + in.RS.TokenEndpoint()
 	case in.TE != nil:
